@@ -96,6 +96,12 @@ CHECKS = {
         text="PROVED (lemma, all inputs): set_default_doc leaves a description alone when it already mentions 'Defaults'/'defaults', and whatever it appends starts with the old text and contains 'Defaults to' — so it never appends twice; quote is idempotent (contracts/C01.py). "
              "BOUNDED only — the property itself: three consecutive rounds agree after the first, over docstring / class / pydantic / function / argparse / json_schema / sqlalchemy x3 on the wider domain (trigger words, embedded default, ellipsis, non-suffix defaults for ReST). Four broad known-finding families on the pinned tree (trigger words drift in every format; Google/NumPy descriptions grow inside emitted code; None for missing defaults; argparse alternates).",
         note="The pinned tree violates this property broadly, so the known-finding families are wide; a new drift inside one of those families would be hidden."),
+    "C14": dict(
+        category="other", design_ref="DESIGN.md §5 C14",
+        technique="contract-based deductive verification of _set_name_and_type (E1 string VCs, z3) for the name-sanitising clause; the property's postcondition well_formed_ir(result) as a run-time contract on the real parsers over generated inputs",
+        text="PROVED (lemma, all names): the name returned by _set_name_and_type has no leading asterisk, is a suffix of the original and equals it when there was none. "
+             "BOUNDED only — the postcondition itself: shape, allowed keys, parsable type strings, string descriptions, signature parameters present exactly once, on docstring / function / class (incl. merge_inner_function) / pydantic / argparse / json_schema / sqlalchemy parsers over grammar-generated docstrings, generated code and arbitrary token strings. Six known-finding classes on the pinned tree.",
+        note="The parsers themselves are outside the engine's reach; running the repository's own tests under the wrappers (planned in DESIGN) was not built."),
 }
 
 NA_REASON = "check not built yet (work in progress; see DESIGN.md for the plan)"
